@@ -198,6 +198,13 @@ def bn_spec(
         for p in ps:
             ncol *= card[idx[p]]
         k = card[idx[v]]
+        # twins: a node with the same parents and cardinality as an earlier one sometimes gets the very same table
+        # (identical sensors) - equal factors are a class of their own for engines that keep factors in sets
+        twin = next((c for c in cpds if set(c["parents"]) == set(ps) and ps and len(c["table"]) == k), None)
+        if twin is not None and draw(st.integers(0, 1)) == 0:
+            cpds.append({"var": v, "parents": list(twin["parents"]), "table": [list(r) for r in twin["table"]]})
+            g["has_twin_cpds"] = True
+            continue
         cols = [draw(column(k, col_kinds)) for _ in range(ncol)]
         table = [[cols[j][i] for j in range(ncol)] for i in range(k)]
         cpds.append({"var": v, "parents": ps, "table": table})
